@@ -197,6 +197,7 @@ struct C21 : Driver {
     r.in_frag = sim::Frag(); r.out_frag = sim::Frag();
     if (rng.below(3) == 0) { r.in_frag.mode = sim::FR_FIXED; r.in_frag.param = 1000 + (uint32_t)rng.below(50000); }
     r.ign_pipe = rng.below(2); r.ign_xfsz = rng.below(2);
+    random_procenv(rng, r);
     if (rng.below(3) == 0) r.argv.push_back(rng.below(2) ? "-v" : "--verbose");     // informational messages and the progress display take the stderr lock too (seeded change C21-4)
     r.sched.spurious = 0;
     c.runs.push_back(r);
@@ -306,6 +307,7 @@ struct C16 : Driver {
       r.argv.push_back(f.name);
     }
     r.sched = random_sched(rng, false);
+    random_procenv(rng, r);
     if (dec && rng.below(2)) { r.in_granul = 256u << rng.below(4); r.out_granul = 2000 + rng.below(30000); }
     // "the run fails (... corrupt data)": one operand damaged (flipped bit or truncation); the fault-free baseline then already ends with status 1
     // there, and the injected signals/errors land before, inside and after lbzip2's own error handling
@@ -467,14 +469,18 @@ struct C17 : Driver {
     if (om == 2) r.argv.push_back("-t");
     if (!dec) r.argv.push_back("-" + std::to_string(1 + (int)rng.below(2)));
     int nop = 1 + (int)rng.below(3);
+    bool many = om == 0 && !force && !keep && rng.below(12) == 0;      // a long list of skipped (hard-linked / odd) operands under a small descriptor limit, then ordinary ones: whatever is opened for a skipped operand must be closed again (seeded change C17-4)
+    if (many) { nop = 12 + (int)rng.below(24); r.nofile = 8 + (int)rng.below(6); }
+    random_procenv(rng, r);
     c.p["nop"] = nop;
     for (int i = 0; i < nop; i++) {
       int kind = (int)rng.below(12); kind = kind < 4 ? OK_REG : kind - 3;   // REG over-weighted; 1..8 -> other kinds
+      if (many) kind = i + 3 >= nop ? OK_REG : rng.below(4) ? OK_HARDLINK : kind;
       if (kind >= OK_NKINDS) kind = OK_REG;
       if (force && (kind == OK_SYMLINK || kind == OK_DIR)) kind = OK_REG;        // -f on non-regular operands: outside the statement
       if ((force || om != 0) && (kind == OK_FIFO || kind == OK_CHARDEV)) kind = OK_REG;   // named pipes / devices are only judged where the statement speaks: skipped when output files are written
       int suffix = (int)rng.below(7);
-      std::string stem = suffix == 6 ? "" : std::string(1, (char)('p' + i)) + std::to_string(i);
+      std::string stem = suffix == 6 ? "" : std::string(1, (char)('a' + (i + 15) % 26)) + std::to_string(i);
       std::string name = stem + suffix_of(suffix);
       if (name.empty()) name = "n" + std::to_string(i);
       c.p["kind" + std::to_string(i)] = kind; c.p["suffix" + std::to_string(i)] = suffix;
